@@ -35,9 +35,11 @@ Proof. exact rejects. Qed.
 Print Assumptions C17_rejects.
 
 (* after a successful Init of a well-typed configuration, every endpoint and backend carries
-   usable values: method, positive timeout, concurrency >= 1, a decoder, sanitised and
+   usable values: method, positive timeout, concurrency >= 1, a decoder (the no-op decoder
+   when the endpoint's output encoding is no-op; to_lower "no-op" = "no-op" is the only thing
+   assumed of strings.ToLower), sanitised and
    non-empty hosts, canonical header names, url keys that are all resolvable *)
-Theorem C17_post : forall clean_host to_lower s c,
+Theorem C17_post : forall clean_host to_lower, to_lower noop = noop -> forall s c,
   well_typed s -> init clean_host to_lower s = Ok c ->
   Forall2 (post_endpoint clean_host s) (s_endpoints s) (s_endpoints c).
 Proof. exact post. Qed.
@@ -77,9 +79,9 @@ Proof. exact spec_b_iff. Qed.
 Print Assumptions C17_oracle_decides_spec.
 
 (* the executable model satisfies the oracle on every well-typed (indeed every) configuration *)
-Theorem C17_model_meets_oracle : forall tbl readable to_lower s,
+Theorem C17_model_meets_oracle : forall tbl readable to_lower s, to_lower noop = noop ->
   spec_b tbl s (obs_of readable (init (tbl_fun tbl) to_lower s)) = true.
-Proof. intros. apply spec_b_iff. apply model_spec. Qed.
+Proof. intros. apply spec_b_iff. apply model_spec. assumption. Qed.
 Print Assumptions C17_model_meets_oracle.
 
 (* "reserved or malformed path", without the scanner: the path does not start with a slash,
@@ -150,6 +152,17 @@ Proof. vm_compute. reflexivity. Qed.
 Example C17_ex_host : init ex_clean (fun x => x) (ex_svc 3 [ex_endpoint "/a" "" [ex_backend "/b" ["h h"] []]]) = Err EHost.
 Proof. vm_compute. reflexivity. Qed.
 Example C17_ex_noop : init ex_clean (fun x => x) (ex_svc 3 [ex_endpoint "/a" "no-op" [ex_backend "/b" ["h"] []; ex_backend "/c" ["h"] []]]) = Err ENoop.
+Proof. vm_compute. reflexivity. Qed.
+(* a no-op endpoint imposes the no-op decoder on a backend that names another encoding *)
+Example C17_ex_noop_decoder :
+  obs_of (fun _ => false) (init ex_clean (fun x => x)
+    (ex_svc 3 [ex_endpoint "/a" "no-op" [ {| b_host := ["h"]; b_nosan := false; b_method := ""; b_url := "/b"; b_enc := "json";
+       b_coll := true; b_sd := ""; b_hdrs := []; b_allow := []; b_mapping := []; b_extra := [];
+       b_keys := []; b_dec := DNil; b_timeout := 0; b_cc := 0 |} ]]))
+  = OOk [ {| oe_method := "GET"; oe_timeout := 2000000000; oe_cc := 1; oe_hdrs := ["Content-Type"];
+             oe_backends := [ {| ob_host := ["http://h"]; ob_method := "GET"; ob_url := "/b"; ob_keys := [];
+                                 ob_dec := DNoop; ob_timeout := 2000000000; ob_cc := 1; ob_hdrs := [] |} ];
+             oe_factory := KOk |} ] [].
 Proof. vm_compute. reflexivity. Qed.
 Example C17_ex_undeclared : init ex_clean (fun x => x) (ex_svc 3 [ex_endpoint "/a/{id}" "" [ex_backend "/b/{other}" ["h"] []]]) = Err EUndefinedParam.
 Proof. vm_compute. reflexivity. Qed.
